@@ -276,7 +276,14 @@ pub fn vex_extra(rng: &mut Rng) -> String {
     let m = 2 + rng.below(3) as usize;
     let op = if k == "float" { *rng.pick(&["+", "-", "*", "/", "%"]) } else { *rng.pick(&["+", "-", "*", "%", "&", "|", "<<", ">>"]) };
     let rep = |len: usize| "x".repeat(len);
-    let e = match rng.below(6) {
+    // a literal next to a vector of a lower kind: typed in the concrete vector type the literal receives since fixes 40c6233
+    // (binary operations) and c05bffa (the arms of ?:) — before, a vector of the literal type that the exporter could not name
+    let lk = *rng.pick(&["bool", "int", "uint"]);
+    let lit = if lk == "bool" { *rng.pick(&["7", "-3", "1.5", "2147483647", "-0.25"]) } else { *rng.pick(&["1.5", "0.5", "-2.5"]) };
+    let aop = *rng.pick(&["+", "-", "*"]);
+    let e = match rng.below(8) {
+        6 => format!("({})((({})v.{}) {} {})", vt(k, n), vt(lk, n), swz(rng, m, n), aop, lit),
+        7 => format!("({})(b ? (({})v.{}) : {})", vt(k, n), vt(lk, n), swz(rng, m, n), lit),
         0 => format!("s.{} {} ({})v", rep(n), op, vt(k, n)),
         1 => format!("(({})v.{}) {} s.{}", vt(k, n), swz(rng, m, m), op, rep(n)),
         2 => format!("({})(v.{} {} s.{})", vt(k, n), swz(rng, m, 4), op, rep(4)),
